@@ -71,6 +71,11 @@ CHECKS = {
          "Every commit DAG up to 3 (thorough 4) nodes, every assignment of tables from a pool that shares blocks, up to 2 refs on any node, every choice of a ref to delete between prunes, and bounded deviations over ref kind, absent tables (shallow commits) and partially present tables are built in an in-memory store and pruned three times by the real prune.Prune; after each prune the store is compared key by key with what reachability from the refs on the pre-prune snapshot dictates (kept byte-identical and structurally sound; unreachable commits, their exclusive tables and blocks gone; idempotent). wrgl prune / wrgl gc are run on disk for branch-delete and reset scenarios.",
          "Trusted: the reachability model (60 lines); map-backed ref store. For a shallow commit (table object absent) nothing is demanded of stray blocks of that table, because nothing identifies them.",
          "DESIGN.md §4 C12"),
+ "C07": ("exploration",
+         "bounded-exhaustive enumeration of transfers (commit fragment x table assignment x destination contents x common set x packfile size) through the real sender, packfile codec and receiver; all permutations of a transfer's objects",
+         "Every fragment of 1..3 commits with tables from a pool that shares blocks, every ancestor-closed set of commits and every set of tables already at the destination, every admissible common set, and bounded deviations over the packfile size limit (down to 1 byte, so every object gets its own packfile), stray blocks and depth-limited table sets are sent by the real ObjectSender and received by the real ObjectReceiver; the two stores are compared object by object, received tables pass the structural oracle and diff empty against the originals, and the order of arrival is checked. All permutations of the objects of a small transfer are fed to fresh receivers to show that nothing is accepted while a prerequisite is missing.",
+         "Trusted: store comparison and the order checker (100 lines); in-memory stores. The sender's precondition (common commits are full at the destination) is assumed here and exercised end-to-end in C09.",
+         "DESIGN.md §4 C07"),
 }
 
 NOT_YET = {}
